@@ -162,6 +162,11 @@ def gen_program(rng, profile):
                 t['resume_after'] = _w(rng, [(0.0, 2), (Q, 3), (1.0, 2), (5.0, 1)])
         if faulty and base in ('c05', 'c06') and rng.random() < 0.1:
             t['stop_at'] = _w(rng, [(0.0, 1), (Q / 2, 3), (Q, 2), (0.5, 2), (1.5, 1)])
+        if rng.random() < 0.25:
+            # the same thread later runs a second, fresh event loop (asyncio.run twice) with more callers
+            t['round2'] = {'after': _w(rng, [(0.0, 4), (Q, 2), (1.0, 2), (61.0, 1)]),
+                           'callers': [{'key': rng.randrange(nkeys), 'at': _w(rng, [(0.0, 5), (Q, 2)])}
+                                       for _ in range(rng.randint(1, 2))]}
         threads.append(t)
     invs = []
     for _ in range(8):
@@ -213,6 +218,9 @@ class CacheWorld:
         self.ws = [WorkerState(i) for i in range(len(prog['threads']))]
         for ti, t in enumerate(prog['threads']):
             for ci, c in enumerate(t['callers']):
+                self.callers[(ti, ci)] = Caller(ti, ci, c)
+            for cj, c in enumerate((t.get('round2') or {}).get('callers', ())):
+                ci = len(t['callers']) + cj
                 self.callers[(ti, ci)] = Caller(ti, ci, c)
         self.violations = []
         self.fired = {}
@@ -547,6 +555,30 @@ class CacheWorld:
                     sch.log('close', ti)
                     loop.close()
                 asyncio.set_event_loop(None)
+            r2 = spec.get('round2')
+            if r2 and not W.stopped_early:
+                if r2['after']:
+                    sch.sleep(r2['after'])
+                sch.log('round2', ti)
+                self.count('loop.second_round_on_fresh_loop')
+                W.shutting_down = False
+                n1 = len(spec['callers'])
+
+                async def main2():
+                    loop2 = asyncio.get_running_loop()
+                    tasks = [loop2.create_task(self.caller(self.callers[(ti, n1 + cj)])) for cj in range(len(r2['callers']))]
+                    await asyncio.gather(*tasks, return_exceptions=True)
+                runner2 = asyncio.Runner(loop_factory=SimLoop)
+                try:
+                    with runner2:
+                        W.loop = runner2.get_loop()
+                        try:
+                            runner2.run(main2())
+                        finally:
+                            W.shutting_down = True
+                except RuntimeError as e:
+                    if 'Event loop stopped before Future completed' not in str(e):
+                        raise
         except S.Abort:
             raise
         except BaseException as e:  # noqa
@@ -600,16 +632,20 @@ class CacheWorld:
             for J in self.invs:
                 if J.key != key:
                     continue
-                # the loop that hosted a computation of this key stopped (or was closed) at
-                # time a while this caller was already waiting: it may rely on the safety net
-                a = J.loop.epoch_end.get(J.epoch)
-                if a is not None and a >= C.t_call and new <= a + SAFETY:
-                    if J.exited and J.loop.run_epoch != J.epoch and J.t_exit is not None and J.t_exit >= a \
-                            and J.how in ('return', 'raise') and J.step_exit > J.loop.epoch_end_step.get(J.epoch, 0):
-                        # the loop was run again and the computation ended there: its waiters are owed a wake-up,
-                        # the safety net is no excuse any more
+                # A loop that hosted a computation of this key stopped (or was closed) at time a, after the computation
+                # began and while this caller was already waiting: the caller may rely on the 60 s safety net -- unless the
+                # computation later *finished normally on that loop after it was run again* (then its waiters are owed a
+                # wake-up and only a later stop of the loop can excuse a delay).
+                L = J.loop
+                for e, a in L.epoch_end.items():
+                    if e < J.epoch or a < C.t_call or new > a + SAFETY:
+                        continue
+                    s_e = L.epoch_end_step.get(e, 0)
+                    if J.exited and J.how in ('return', 'raise') and J.step_exit is not None and J.step_exit > s_e:
                         continue
                     excused = True
+                    break
+                if excused:
                     break
             if excused:
                 self.count('idle.excused_by_safety_window')
